@@ -83,9 +83,12 @@ def gsize(g):
 # building real trees
 # ---------------------------------------------------------------------------
 
-def build(g, _top=True):
+def build(g, _top=True, extras_first=False):
     """Assemble with the library's own operations so that the namespace invariant holds the way
-    the library establishes it: add_child for structure, then add_namespace top-down."""
+    the library establishes it: add_child for structure, then add_namespace top-down.
+    g["ns_pre"] (optional): prefixes declared on the node while it is still detached and childless (an element that
+    declares its own prefixes lists them before the inherited ones, as an XML import produces);
+    extras_first: qualified attributes are stored before the plain ones (the order of the two calls is the caller's)."""
     # content goes through the constructor (the loaders use the setter: the two ways of giving a node its text must agree)
     if g.get("id") is not None:
         n = Node(g["name"], id=g["id"], content=g["content"])
@@ -93,14 +96,20 @@ def build(g, _top=True):
         n = Node(g["name"], content=g["content"])
     if g["tail"] is not None:
         n.tail = g["tail"]
+    if extras_first:
+        for k, v in g["extras"]:
+            n.add_extras(k, v)
     for k, v in g["attrs"]:
         n.add_attribute(k, v)
-    for k, v in g["extras"]:
-        n.add_extras(k, v)
+    if not extras_first:
+        for k, v in g["extras"]:
+            n.add_extras(k, v)
     if g["prefix"] is not None:
         n.prefix = g["prefix"]
+    for pf, uri in g.get("ns_pre") or []:
+        n.add_namespace(pf, uri)
     for c in g["children"]:
-        n.add_child(build(c, False))
+        n.add_child(build(c, False, extras_first))
     if _top:
         declare(n, g)
     return n
